@@ -1,0 +1,188 @@
+//go:build verif
+
+package parser
+
+// Contracts for the parser's error rendering (C20: rendering never fails; C03: no panic).
+
+//@ spec tokPosOK(p) = p.Char >= 0 && p.Line >= 0 && p.Column >= 0
+
+//@ func (*BaseParserError).FriendlyErrorMessage
+//@ props C20 C03
+//@ safety
+//@ requires e != nil && tokPosOK(e.startPosition) && tokPosOK(e.endPosition)
+
+//@ func (*BaseParserError).Error
+//@ props C20 C03
+//@ safety
+//@ requires e != nil
+
+// ---- parser state invariant: the three look-ahead tokens are zero tokens or tokens produced by the lexer ----
+//@ spec lx(p) = p.l
+//@ spec tokOK(l, t) = 0 <= t.StartPosition.Char && t.StartPosition.Char <= len(l.characters) + 1 && t.StartPosition.Line >= 0 && (t.Type != "EOF" ==> t.StartPosition.Char <= len(l.characters)) && (t.Type == "EOF" && len(l.characters) > 0 ==> t.StartPosition.Char >= 1)
+//@ spec LInv(l) = l != nil && 0 <= l.position && l.position <= len(l.characters) + 1 && l.nextPosition == l.position + 1 && 0 <= l.lineStart && l.lineStart <= l.position && l.column == l.position - l.lineStart && l.line >= 0 && (l.position < len(l.characters) ==> l.ch == l.characters[l.position]) && (l.position >= len(l.characters) ==> l.ch == 0)
+//@ spec PInv(p) = p != nil && LInv(p.l) && tokOK(p.l, p.prevToken) && tokOK(p.l, p.curToken) && tokOK(p.l, p.peekToken)
+
+// The look-ahead tokens are written only by nextToken (so PInv can only be broken there).
+//@ scan[C20.tokens.writers.prev] C20,C03 fieldwriters Parser.prevToken: nextToken
+//@ scan[C20.tokens.writers.cur] C20,C03 fieldwriters Parser.curToken: nextToken
+//@ scan[C20.tokens.writers.peek] C20,C03 fieldwriters Parser.peekToken: nextToken
+//@ scan[C20.lexer.writers] C20,C03 fieldwriters Parser.l: New
+
+//@ func (*Parser).nextToken
+//@ props C20 C03
+//@ safety
+//@ requires PInv(p)
+//@ assume[src.nul] len(p.l.characters) > 0 ==> p.l.characters[0] != 0 && (p.l.prevToken.Type == "EOF" ==> p.l.position >= 1)
+//@ ensures[C20.parser.inv] PInv(p)
+
+//@ func (*Parser).noPrefixParseFnError
+//@ props C20 C03
+//@ safety
+//@ requires PInv(p) && tokOK(p.l, t)
+//@ ensures[C20.parser.inv] PInv(p)
+
+//@ func (*Parser).peekError
+//@ props C20 C03
+//@ safety
+//@ requires PInv(p) && tokOK(p.l, got)
+//@ ensures[C20.parser.inv] PInv(p)
+
+//@ func (*Parser).setTokenError
+//@ props C20 C03
+//@ safety
+//@ requires PInv(p) && tokOK(p.l, t)
+//@ ensures[C20.parser.inv] PInv(p)
+
+//@ func (*Parser).illegalToken
+//@ props C20 C03
+//@ safety
+//@ requires PInv(p)
+//@ ensures[C20.parser.inv] PInv(p)
+
+//@ func (*Parser).expectPeek
+//@ props C20 C03
+//@ safety
+//@ requires PInv(p)
+//@ assume[src.nul] len(p.l.characters) > 0 ==> p.l.characters[0] != 0 && (p.l.prevToken.Type == "EOF" ==> p.l.position >= 1)
+//@ ensures[C20.parser.inv] PInv(p)
+
+// ---- C03: a statement is either absent (nil interface) or a real node: never a typed nil pointer ----------
+//@ func (*Parser).parseStatement
+//@ props C03
+//@ noinline parseConst parseReturn
+//@ nocontract nextToken
+//@ requires p != nil
+//@ ensures[C03.typednil] result == nil || ref(result) != nil
+
+//@ func (*Parser).parseStatementStrict
+//@ props C03
+//@ nocontract setTokenError
+//@ requires p != nil
+//@ ensures[C03.typednil] result == nil || ref(result) != nil
+
+// parseNode dispatches through the prefix / infix function-value tables, which are outside the verified
+// subset: that those functions return nil or a real node is assumed.
+//@ func (*Parser).parseNode
+//@ trusted
+//@ modcomps H_ E_ MD_ MV_ G_ C_
+//@ ensures result == nil || ref(result) != nil
+
+//@ func (*Parser).parseAssignmentValue
+//@ trusted
+//@ modcomps H_ E_ MD_ MV_ G_ C_
+//@ ensures result == nil || ref(result) != nil
+
+//@ func (*Parser).parseExpressionStatement
+//@ props C03
+//@ nocontract setTokenError
+//@ requires p != nil
+//@ ensures[C03.typednil] result == nil || ref(result) != nil
+
+//@ func (*Parser).parseVar
+//@ props C03
+//@ nocontract nextToken expectPeek
+//@ requires p != nil
+//@ invariant 1: true
+//@ ensures[C03.typednil] result == nil || ref(result) != nil
+
+//@ func (*Parser).parseDeclaration
+//@ props C03
+//@ nocontract nextToken expectPeek
+//@ requires p != nil
+//@ invariant 1: true
+//@ ensures[C03.typednil] result == nil || ref(result) != nil
+
+// ---- C01: operator precedence (binding powers) and the Pratt loop ---------------------------------------------
+//@ spec prec(t) = precedences[t]
+//@ spec hasprec(t) = haskey(precedences, t)
+// The ordering the language documents: ** > * / > + - > comparisons > == != > && || > |, call and index bind
+// tightest; equal powers associate to the left (strict '<' in the Pratt loop).
+//@ spec precOK() = hasprec("*") && hasprec("/") && hasprec("+") && hasprec("-") && hasprec("<") && hasprec("<=") && hasprec(">") && hasprec(">=") && hasprec("==") && hasprec("!=") && hasprec("&&") && hasprec("||") && hasprec("|") && hasprec("**") && hasprec("%") && hasprec("(") && hasprec("[") && hasprec(".") && prec("*") == prec("/") && prec("+") == prec("-") && prec("<") == prec("<=") && prec("<") == prec(">") && prec("<") == prec(">=") && prec("==") == prec("!=") && prec("&&") == prec("||") && prec("**") > prec("*") && prec("*") > prec("+") && prec("+") > prec("<") && prec("<") > prec("==") && prec("==") > prec("&&") && prec("&&") > prec("|") && prec("|") > LOWEST && prec("(") > prec("**") && prec("[") > prec("(") && prec(".") == prec("[") && prec("%") > prec("*")
+
+//@ axiom precedencesOK: precOK()
+
+//@ func init
+//@ props C01
+//@ ensures[C01.precedence.table] precOK()
+
+//@ func (*Parser).peekPrecedence
+//@ props C01
+//@ requires p != nil
+//@ modifies nothing
+//@ ensures[C01.prec.peek] result == ite(hasprec(p.peekToken.Type), prec(p.peekToken.Type), LOWEST)
+
+//@ func (*Parser).currentPrecedence
+//@ props C01
+//@ requires p != nil
+//@ modifies nothing
+//@ ensures[C01.prec.cur] result == ite(hasprec(p.curToken.Type), prec(p.curToken.Type), LOWEST)
+
+// parseExpression is reached through function values inside parseNode; its ghost result records the binding
+// power it was asked to parse at.
+//@ func (*Parser).parseExpression
+//@ trusted
+//@ modcomps H_ E_ MD_ MV_ G_ C_
+//@ ghostensures result != nil ==> uf("parsedAt", int, result) == precedence
+
+// An infix operator parses its right operand at exactly its own binding power (so equal powers associate to the
+// left) and builds Infix(left, operator literal, right) in that order.
+//@ func (*Parser).parseInfixExpr
+//@ props C01
+//@ requires p != nil
+//@ nocontract nextToken setTokenError
+//@ invariant 1: precedence == ite(old(hasprec(p.curToken.Type)), old(prec(p.curToken.Type)), LOWEST) && firstToken == old(p.curToken) && left == leftNode.(ast.Expression) && implements(leftNode, ast.Expression)
+//@ ensures[C01.infix.type] result != nil ==> typeof(result) == *ast.Infix
+//@ ensures[C01.infix.left] result != nil ==> result.(*ast.Infix).left == leftNode.(ast.Expression)
+//@ ensures[C01.infix.op] result != nil ==> result.(*ast.Infix).operator == old(p.curToken.Literal)
+//@ ensures[C01.infix.right] result != nil ==> result.(*ast.Infix).right != nil
+//@ ensures[C01.infix.power] result != nil ==> uf("parsedAt", int, result.(*ast.Infix).right) == ite(old(hasprec(p.curToken.Type)), old(prec(p.curToken.Type)), LOWEST)
+
+//@ scan[C09.globals.parser] C09 pkgglobals github.com/risor-io/risor/parser:
+
+// ---- C14: import paths ----------------------------------------------------------------------------------------
+// validateImportPath accepts exactly identifiers separated by single slashes (optionally wrapped in quote
+// characters, which it strips before matching). Consequences used by the importer: an accepted path has no
+// "..", no backslash, no colon, no NUL and does not start with a slash.
+// Assumed: regexp.MustCompile(lit).MatchString is membership in the translated regular language; strings.Trim.
+//@ func validateImportPath
+//@ props C14
+//@ modifies nothing
+//@ ensures[C14.path.shape] result == nil ==> inre(path, "^\"*[a-zA-Z_][a-zA-Z0-9_]*(/[a-zA-Z_][a-zA-Z0-9_]*)*\"*$")
+//@ ensures[C14.path.nodotdot] result == nil ==> !inre(path, "\\.\\.")
+//@ ensures[C14.path.nobackslash] result == nil ==> !inre(path, "\\\\")
+//@ ensures[C14.path.nocolon] result == nil ==> !inre(path, ":")
+//@ ensures[C14.path.nonul] result == nil ==> !inre(path, "\\x00")
+//@ ensures[C14.path.relative] result == nil ==> !inre(path, "^/")
+//@ ensures[C14.path.noempty] result == nil ==> !inre(path, "//") && path != ""
+//@ ensures[C14.path.accept] inre(path, "^[a-zA-Z_][a-zA-Z0-9_]*(/[a-zA-Z_][a-zA-Z0-9_]*)*$") ==> result == nil
+
+//@ spec importPathOK(s) = inre(s, "^\"*[a-zA-Z_][a-zA-Z0-9_]*(/[a-zA-Z_][a-zA-Z0-9_]*)*\"*$")
+
+// Every Import node the parser builds carries a path that passed validateImportPath (both the identifier and
+// the string form).
+//@ func (*Parser).parseImport
+//@ props C14
+//@ havoc nextToken expectPeek setTokenError peekError
+//@ nocontract parseString
+//@ requires p != nil
+//@ ensures[C14.import.validated] result != nil ==> typeof(result) == *ast.Import && ref(result) != nil && result.(*ast.Import).path != nil && importPathOK(result.(*ast.Import).path.value)
